@@ -47,11 +47,13 @@ LEVEL_NOTE = ("Trusted: Coq kernel + vm_compute; the hand-written association-li
               "correspondence run, not verified); the harness's identification of values by a type-strict structural key. The compiled extractor is "
               "exercised as the shipped .so. Value encoding is outside the property: as_json is compared as (name, class of the decoded JSON value) "
               "with the per-value rendering taken from orjson itself, and generated values are restricted to ones orjson/ormsgpack can encode "
-              "(ints within 64 bits, str-keyed dicts). Dictionary keys and field names are text. No axioms (Print Assumptions: closed).")
+              "(ints within 64 bits, str-keyed dicts). Field names are text; dictionary keys are text except in the keyed model/stream, where a key is "
+              "a key object (str / number / None / bytes / other hashable numbered by Python's own equality in the harness) with its str() "
+              "beside it. No axioms (Print Assumptions: closed).")
 DESIGN_REF = "DESIGN.md section 8, C02"
 COQ_IMPORTS = "From Orso Require Import Model.C02."
-COQ_CHECKS = {"row": "c02_row_check", "frame": "c02_frame_check", "session": "c02_session_check", "source": "c02_source_check", "producer": "c02_producer_check"}
-COQ_SHOW = {"row": "c02_row_show", "frame": "c02_frame_show", "session": "c02_session_show", "source": "c02_source_show", "producer": "c02_producer_show"}
+COQ_CHECKS = {"row": "c02_row_check", "frame": "c02_frame_check", "session": "c02_session_check", "source": "c02_source_check", "producer": "c02_producer_check", "keyed": "c02_keyed_check"}
+COQ_SHOW = {"row": "c02_row_show", "frame": "c02_frame_show", "session": "c02_session_show", "source": "c02_source_show", "producer": "c02_producer_show", "keyed": "c02_keyed_show"}
 RULE = ("row cases: field list (0..6 names, duplicates, confusable/Unicode/empty names) x dictionary (sub/superset of the fields, shuffled "
         "insertion order, values of every kind incl. None/NaN/-0.0/nested) x looked-up names present and absent, run through "
         "Row.create_class(fields)(dict) (also with reversed insertion order), DataFrame(rows=[], schema=fields).append(dict), the five views "
@@ -61,6 +63,8 @@ RULE = ("row cases: field list (0..6 names, duplicates, confusable/Unicode/empty
         "sources: the records handed to DataFrame(...) through each of 9 carrier classes (containers, one-shot iterators, readers over "
         "read-once state, a wrapper round a generator), with records read from the object before and the object used again afterwards; "
         "producers: generators that keep editing the record objects they have handed over while DataFrame(...) is still reading; "
+        "keyed: DataFrame(dictionaries) over dictionaries whose keys are not all strings (int, bool, float, Decimal, None, bytes, tuple, date keys; "
+        "keys that collide after str() such as 1 and '1'; later dictionaries with look-alike keys), then append by name; "
         "exhaustive over the stated "
         "small scope, then random; a case is non-trivial when some field/column receives a non-None value from a dictionary; distinct by canonical JSON")
 TRUSTED = [
@@ -70,7 +74,7 @@ TRUSTED = [
     "per-value rendering (enters as the function jenc, measured per case)",
 ]
 ASSUMPTIONS = [
-    "dictionary keys and field names are text (str); dictionaries have pairwise different keys (NoDup hypothesis of the permutation theorem)",
+    "field names are text (str); dictionary keys are text, or (keyed stream) any hashable whose equality is Python's own; dictionaries have pairwise different keys (NoDup hypothesis of the permutation theorem)",
     "values are identified by a type-strict structural key in the harness; the theorems are over an arbitrary value type",
     "values are encodable by orjson/ormsgpack (append sizes the row with ormsgpack; as_json uses orjson)",
 ]
@@ -342,8 +346,12 @@ def _observe_frame(case):
     pool = _Pool(case["pool"])
     out = {}
     mapping = case.get("mapping", "dict")
-    dicts = [_mkrecord(items, pool, mapping) for items in case["dicts"]]
-    apps = [_mkrecord(items, pool, mapping) for items in case["appends"]]
+    if case["kind"] == "keyed":  # keys are value specs (int, None, bytes, tuple ... as well as str), see _keyed_*
+        dicts = [_mkrecord([[_build(k), vi] for k, vi in items], pool, mapping) for items in case["dicts"]]
+        apps = [_mkrecord([[_build(k), vi] for k, vi in items], pool, mapping) for items in case["appends"]]
+    else:
+        dicts = [_mkrecord(items, pool, mapping) for items in case["dicts"]]
+        apps = [_mkrecord(items, pool, mapping) for items in case["appends"]]
     before = [_snap(m) for m in dicts + apps]
     try:
         df = DataFrame(_mkcarrier(_carrier_of(case), dicts))
@@ -1291,6 +1299,185 @@ def _shrink_producer(case):
             yield dict(case, pool=case["pool"][:i] + [["int", i + 1]] + case["pool"][i + 1:])
 
 
+# ------------------------------------------------------------------ dictionaries whose keys are not all strings
+# {"kind": "keyed", "pool": [...], "dicts": [[[keyspec, vi], ...], ...], "appends": [...], "carrier": ..., "mapping": ...}
+# A key is a value spec (["int", 1], ["str", "1"], ["none"], ["bytes", "6b"], ["tuple", [...]], ["bool", True], ["float", hex],
+# ["date", iso], ["decimal", "2.5"]).  Observed exactly like a "frame" case (columns, rows, appends, as_dict per row).
+def _keyed_records(case):
+    """The case dictionaries as real Python dictionaries key object -> value id (the language's own key equality)."""
+    pool = _Pool(case["pool"])
+    out = []
+    for group in ("dicts", "appends"):
+        recs = []
+        for items in case[group]:
+            d = {}
+            for k, vi in items:
+                d[_build(k)] = pool.ids[vi]
+            if len(d) != len(items):
+                raise ValueError("case dictionary repeats a key")
+            recs.append(d)
+        out.append(recs)
+    return out
+
+
+def _oracle_keyed(case, obs):
+    """Each value sits at the position of the field (= key of the first dictionary) it is stored under; the columns are
+    named str(key); absent -> None; one row per dictionary.  append(dict) afterwards goes by column name (a string)."""
+    for n in ("columns", "rows", "columns_after", "rows_after", "dicts_after"):
+        if _is_raise(obs[n]):
+            return f"{n}: must not raise, raised {obs[n][1]}"
+    if obs.get("input_unchanged") is False:
+        return "the mappings handed to DataFrame(...) / append(...) must be left unchanged (same class, same items, no key gained)"
+    dicts, apps = _keyed_records(case)
+    keys = list(dicts[0].keys()) if dicts else []
+    cols = [str(k) for k in keys]
+    if obs["columns"] != cols:
+        return f"columns must be the str() of the first dictionary's keys {cols}, got {obs['columns']}"
+    if len(obs["rows"]) != len(dicts):
+        return f"exactly one row per dictionary required ({len(dicts)}), got {len(obs['rows'])}"
+    for j, (D, r) in enumerate(zip(dicts, obs["rows"])):
+        if len(r) != len(cols):
+            return f"row {j} must be as wide as the column list ({len(cols)}), got width {len(r)}"
+        want = [D.get(k, 0) for k in keys]
+        if r != want:
+            return (f"row {j} must hold, per field {keys!r} of the first dictionary, the value dictionary {j} stores under that "
+                    f"key (0=None when absent): {want}, got {r}")
+    if obs["columns_after"] != cols:
+        return f"columns after append must stay {cols}, got {obs['columns_after']}"
+    allr = [[D.get(k, 0) for k in keys] for D in dicts] + [[D.get(c, 0) for c in cols] for D in apps]
+    if obs["rows_after"] != allr:
+        return f"after the appends (which go by column name) the rows must be {allr}, got {obs['rows_after']}"
+    if len(obs["dicts_after"]) != len(allr):
+        return "one as_dict per row expected"
+    for j, (want, got) in enumerate(zip(allr, obs["dicts_after"])):
+        if dict((k, v) for k, v in got) != dict(zip(cols, want)) or len(got) != len(set(cols)):
+            return f"as_dict of row {j} must be {dict(zip(cols, want))}, got {got}"
+    return None
+
+
+def _pkey(obj, classes):
+    """Key object -> Coq pkey.  bool/int/integral float/integral Decimal are one number (Python: True == 1 == 1.0, equal
+    hashes); str, bytes, None are themselves; any other hashable is numbered by Python's own equality within the case."""
+    if isinstance(obj, str):
+        return "(PKStr %s)" % L.text(obj)
+    if obj is None:
+        return "PKNone"
+    if isinstance(obj, bytes):
+        return "(PKBytes %s)" % L.lst(L.N(b) for b in obj)
+    if isinstance(obj, (bool, int)):
+        return "(PKNum %s)" % L.Z(int(obj))
+    if isinstance(obj, (float, decimal.Decimal)):
+        if obj != obj:
+            raise ValueError("NaN keys are not generated (NaN is not equal to itself)")
+        if obj == obj and abs(obj) != float("inf") and obj == int(obj):
+            return "(PKNum %s)" % L.Z(int(obj))
+    return "(PKObj %s)" % L.N(classes.setdefault(obj, len(classes)))
+
+
+def _keyed_to_coq(case, obs):
+    pool = _Pool(case["pool"])
+    classes = {}
+
+    def kd(items):
+        ents = []
+        for k, vi in items:
+            o = _build(k)
+            ents.append(L.pair(L.pair(_pkey(o, classes), L.text(str(o))), L.Z(pool.ids[vi])))
+        return "(%s : zkdict)" % L.lst(ents)
+
+    term = "(KeyedCase (%s : list zkdict) (%s : list zkdict) %s %s %s %s %s)" % (
+        L.lst(kd(d) for d in case["dicts"]), L.lst(kd(d) for d in case["appends"]),
+        _res(obs["columns"], _keys), _res(obs["rows"], _zss), _res(obs["columns_after"], _keys),
+        _res(obs["rows_after"], _zss), _res(obs["dicts_after"], _kvss))
+    return ("keyed", term)
+
+
+_KPOOL = [["none"]] + [["int", i] for i in range(1, 9)]
+_KEYS = [["int", 1], ["str", "1"], ["none"], ["str", "None"], ["bytes", "6b"], ["tuple", [["str", "x"], ["int", 1]]],
+         ["int", 0], ["str", "a"], ["date", "2024-01-01"], ["str", "2024-01-01"]]
+# keys that print alike / compare alike: the string naming the key, and the other spellings of the same number
+_ALIKE = {
+    '["int", 1]': [["str", "1"], ["bool", True], ["float", (1.0).hex()], ["str", "True"]],
+    '["str", "1"]': [["int", 1], ["bytes", "31"]],
+    '["none"]': [["str", "None"]],
+    '["str", "None"]': [["none"]],
+    '["bytes", "6b"]': [["str", "b'k'"], ["str", "k"]],
+    '["tuple", [["str", "x"], ["int", 1]]]': [["str", "('x', 1)"], ["tuple", [["str", "x"], ["bool", True]]], ["tuple", [["str", "x"], ["int", 2]]]],
+    '["int", 0]': [["str", "0"], ["bool", False], ["float", (-0.0).hex()]],
+    '["str", "a"]': [["str", "A"]],
+    '["date", "2024-01-01"]': [["str", "2024-01-01"], ["datetime", "2024-01-01T00:00:00"]],
+    '["str", "2024-01-01"]': [["date", "2024-01-01"]],
+}
+
+
+def _kdedupe(items):
+    """Drop entries whose key object equals an earlier one (Python equality), keep the first."""
+    seen, out = {}, []
+    for k, vi in items:
+        o = _build(k)
+        if o in seen:
+            continue
+        seen[o] = True
+        out.append([k, vi])
+    return out
+
+
+def _keyed_exhaustive(tier):
+    """Every first dictionary of 1 or 2 keys out of _KEYS (ordered; 3 keys in the thorough tier) x what follows it."""
+    sizes = (1, 2) if tier == "quick" else (1, 2, 3)
+    n = 0
+    for r in sizes:
+        for ks in itertools.permutations(_KEYS, r):
+            if r == 3 and tier != "quick" and n % 3:
+                n += 1
+                continue
+            n += 1
+            first = _kdedupe([[k, 1 + i] for i, k in enumerate(ks)])
+            rev = [[k, 4 + i] for i, (k, _) in enumerate(reversed(first))]
+            alike1 = _kdedupe([[_ALIKE[json.dumps(k)][0], 4 + i] for i, (k, _) in enumerate(first) if _ALIKE[json.dumps(k)]])
+            everything = _kdedupe([[a, 7] for k, _ in first for a in _ALIKE[json.dumps(k)][1:]] + [[k, 4 + i] for i, (k, _) in enumerate(first)]
+                                  + [[_ALIKE[json.dumps(k)][0], 8] for k, _ in first if _ALIKE[json.dumps(k)]])
+            # append goes by name: the strings naming the columns, and the key objects themselves, in one dictionary
+            app = _kdedupe([[k, 6] for k, _ in first] + [[["str", str(_build(k))], 7 + (i % 2)] for i, (k, _) in enumerate(first)])
+            byname = _kdedupe([[["str", str(_build(k))], 5 + i] for i, (k, _) in enumerate(first)])
+            yield {"kind": "keyed", "pool": _KPOOL, "dicts": [first], "appends": [app], "carrier": "generator", "mapping": "dict"}
+            yield {"kind": "keyed", "pool": _KPOOL, "dicts": [first, rev], "appends": [byname], "carrier": "list", "mapping": "dict"}
+            yield {"kind": "keyed", "pool": _KPOOL, "dicts": [first, alike1], "appends": [], "carrier": "listiter" if n % 2 else "tuple", "mapping": "dict"}
+            yield {"kind": "keyed", "pool": _KPOOL, "dicts": [first, everything, first], "appends": [app, everything],
+                   "carrier": CARRIERS[n % len(CARRIERS)], "mapping": MAPPINGS[n % len(MAPPINGS)]}
+
+
+_RKEYS = _KEYS + [["bool", True], ["bool", False], ["float", (1.0).hex()], ["float", (2.5).hex()], ["decimal", "2.5"], ["decimal", "1"],
+                  ["int", 2024], ["int", -1], ["int", 2 ** 64], ["str", ""], ["str", "b"], ["str", "name"], ["str", "True"], ["str", "1.0"],
+                  ["str", "2.5"], ["str", "0"], ["bytes", ""], ["bytes", "31"], ["tuple", []], ["tuple", [["int", 1]]],
+                  ["tuple", [["str", "x"], ["int", 2]]], ["tuple", [["none"], ["str", "1"]]], ["datetime", "2024-01-01T00:00:00"],
+                  ["date", "1999-12-31"], ["str", "('x', 1)"], ["str", "b'k'"], ["str", "é"]]
+
+
+def _random_keyed(rng):
+    pool = [["none"]] + [_rand_value(rng) for _ in range(rng.randint(2, 7))]
+    universe = rng.sample(_RKEYS, rng.randint(2, 8))
+    first = _kdedupe([[k, rng.randrange(len(pool))] for k in universe if rng.random() < 0.7])
+
+    def other():
+        keys = [k for k, _ in first if rng.random() < 0.7]
+        for k, _ in first:
+            al = _ALIKE.get(json.dumps(k))
+            if al and rng.random() < 0.4:
+                keys.append(rng.choice(al))
+            if rng.random() < 0.25:
+                keys.append(["str", str(_build(k))])
+        keys += [k for k in rng.sample(_RKEYS, 2) if rng.random() < 0.4]
+        rng.shuffle(keys)
+        return _kdedupe([[k, rng.randrange(len(pool))] for k in keys])
+
+    nd = rng.choice([0, 1, 2, 2, 3, 4])
+    dicts = ([first] + [other() for _ in range(nd - 1)]) if nd else []
+    appends = [other() for _ in range(rng.choice([0, 0, 1, 2]))]
+    return {"kind": "keyed", "pool": pool, "dicts": dicts, "appends": appends, "carrier": rng.choice(CARRIERS), "mapping": _rand_mapping(rng)}
+
+
+
 def observe(case):
     if case["kind"] == "producer":
         return _observe_producer(case)
@@ -1408,6 +1595,8 @@ def oracle(case, obs):
         return _oracle_source(case, obs)
     if case["kind"] == "session":
         return _oracle_session(case, obs)
+    if case["kind"] == "keyed":
+        return _oracle_keyed(case, obs)
     return _oracle_row(case, obs) if case["kind"] == "row" else _oracle_frame(case, obs)
 
 
@@ -1456,6 +1645,8 @@ def to_coq(case, obs):
         return _source_to_coq(case, obs)
     if case["kind"] == "session":
         return _session_to_coq(case, obs)
+    if case["kind"] == "keyed":
+        return _keyed_to_coq(case, obs)
     pool = _Pool(case["pool"])
     if case["kind"] == "row":
         lookups = L.lst(L.pair(L.text(n), L.opt(None if di is None else L.Z(pool.ids[di]))) for n, di in case["lookups"])
@@ -1496,6 +1687,11 @@ def nontrivial_key(case, obs):
         creators = sum(1 for o in case["ops"] if o[0] in ("class", "arrow", "frame", "named"))
         fed = any(o[0] in ("rowdict", "append") and any(pool.ids[vi] != 0 for _, vi in o[2]) for o in case["ops"])
         return json.dumps(case, sort_keys=True) if creators >= 2 and fed else None
+    if case["kind"] == "keyed":
+        # non-trivial: the first dictionary stores a non-None value under a key that is not a string
+        if not case["dicts"] or not any(k[0] != "str" and pool.ids[vi] != 0 for k, vi in case["dicts"][0]):
+            return None
+        return json.dumps(case, sort_keys=True)
     if case["kind"] == "row":
         D = _assoc(case["dict"], pool)
         if not any(D.get(f, 0) != 0 for f in case["fields"]):
@@ -1536,8 +1732,22 @@ def classify(case, obs):
         if case["ops"].count("frame") > 1:
             yield "same-object-used-for-two-frames"
         return
-    if case["kind"] == "frame":
+    if case["kind"] in ("frame", "keyed"):
         yield "carrier:" + _carrier_of(case)
+    if case["kind"] == "keyed":
+        for d in case["dicts"] + case["appends"]:
+            for k, _ in d:
+                yield "key:" + k[0]
+        if case["dicts"]:
+            names = [str(_build(k)) for k, _ in case["dicts"][0]]
+            if len(set(names)) < len(names):
+                yield "first-dictionary-keys-collide-after-str"
+            objs = [_build(k) for k, _ in case["dicts"][0]]
+            for d in case["dicts"][1:] + case["appends"]:
+                if any(_build(k) not in objs and str(_build(k)) in names for k, _ in d):
+                    yield "later-dictionary-has-a-key-that-only-prints-like-a-field"
+                if any(type(_build(k)) is not type(o) and _build(k) == o for k, _ in d for o in objs):
+                    yield "later-dictionary-spells-an-equal-key-differently"
     if case["kind"] == "session":
         made = []
         for o in case["ops"]:
@@ -1588,6 +1798,16 @@ def classify(case, obs):
 
 # ------------------------------------------------------------------ generators
 def corpus():
+    # round 7 (seeded change r7s3): dictionaries whose keys are not all strings
+    for dicts in (
+        [[[["int", 0], 1], [["int", 1], 2]], [[["int", 1], 3], [["int", 0], 4]], [[["int", 1], 5]]],
+        [[[["str", "name"], 1], [["int", 2024], 2]], [[["str", "name"], 3], [["int", 2024], 4]]],
+        [[[["tuple", [["str", "x"], ["int", 1]]], 1], [["tuple", [["str", "x"], ["int", 2]]], 2]], [[["tuple", [["str", "x"], ["int", 2]]], 4]]],
+        [[[["none"], 1], [["bool", True], 2], [["bytes", "6b"], 3]]],
+        [[[["date", "2024-01-01"], 5], [["str", "total"], 5]], [[["date", "2024-01-01"], 7]]],
+        [[[["int", 1], 1], [["str", "1"], 2]], [[["str", "1"], 4], [["int", 1], 3]]],
+    ):
+        yield {"kind": "keyed", "pool": _KPOOL, "dicts": dicts, "appends": [[[["str", "1"], 6], [["int", 1], 7]]], "carrier": "list", "mapping": "dict"}
     # round 5 (seeded change r5s2): the producer touches the first record again after it was read
     yield {"kind": "producer", "pool": [["int", 0], ["str", "n0"], ["int", 1], ["str", "n1"], ["int", 2], ["str", "n2"]], "lazy": "generator",
            "mapping": "dict", "actions": [["new", [["id", 0], ["name", 1]]], ["yield", 0], ["new", [["id", 2], ["name", 3]]], ["set", 0, "next_id", 2],
@@ -1692,6 +1912,9 @@ def exhaustive(tier):
         # records produced lazily by a generator that keeps touching what it has handed over
         for c in _producer_exhaustive(tier):
             yield c
+        # dictionaries whose keys are not all strings (int / None / bytes / tuple / date keys, keys that collide after str())
+        for c in _keyed_exhaustive(tier):
+            yield c
 
     return it(), (f"row: all field lists of <= {maxf} names over the 3-name alphabet {{a,b,c}} x all dictionaries over that alphabet "
                   f"(every subset, every insertion order, each value its own or None; 79) x 6 lookups; frame: all sequences of <= 2 "
@@ -1712,7 +1935,11 @@ def exhaustive(tier):
                   + "; producers: generators over 5 small records x 7 edits (none, new key, overwrite, delete a / b, delete+reinsert, add+delete) of a "
                     "record already handed over - previous record edited before / after the next one is handed over, one buffer object handed over "
                     "three times with an edit between each, record edited before its first and after its last hand-over - through a plain "
-                    "generator, a wrapper round it and an object whose __iter__ starts it")
+                    "generator, a wrapper round it and an object whose __iter__ starts it"
+                  + "; keyed: every first dictionary of 1 or 2 " + ("" if tier == "quick" else "(and a third of those of 3) ")
+                  + "keys out of {1, '1', None, 'None', b'k', ('x', 1), 0, 'a', date, the date's text} in every order x {alone from a "
+                    "generator + append of names and key objects; followed by itself reversed + append by name; followed by its look-alike "
+                    "keys ('1' for 1, None for 'None', ...); followed by all look-alikes (True, 1.0, b'1', ...) across carriers and mapping classes}")
 
 
 _PLAIN = ["a", "b", "c", "d", "e", "f", "g"]
@@ -1804,12 +2031,17 @@ def generate(rng, tier):
         yield _random_source(rng)
     for i in range(300 if tier == "quick" else 6000):
         yield _random_producer(rng)
+    for i in range(300 if tier == "quick" else 6000):
+        yield _random_keyed(rng)
 
 
 def search(rng):
     while True:
         r = rng.random()
-        if r > 0.88:
+        if r > 0.94:
+            yield _random_keyed(rng)
+            continue
+        if r > 0.85:
             yield _random_producer(rng)
             continue
         yield _random_source(rng) if r < 0.15 else _random_session(rng) if r < 0.4 else _random_frame(rng) if r < 0.6 else _random_row(rng)
